@@ -495,10 +495,18 @@ func genRoute(r *vh.Rand, prods, cls []string) *obj {
 		if r.Chance(2, 3) {
 			var rules []interface{}
 			n := r.Intn(3)
-			for i := 0; i < n; i++ {
-				rules = append(rules, (&obj{}).set("Cond", condOK[r.Intn(len(condOK))]).set("ClusterName", pick()))
+			// the reserved name ADVANCED_MODE is meaningful in BASIC rules only: as the target of an advanced rule it
+			// is an ordinary cluster name that must exist in cluster_conf
+			pickAdv := func() string {
+				if r.Chance(1, 10) {
+					return "ADVANCED_MODE"
+				}
+				return pick()
 			}
-			rules = append(rules, (&obj{}).set("Cond", "default_t()").set("ClusterName", pick()))
+			for i := 0; i < n; i++ {
+				rules = append(rules, (&obj{}).set("Cond", condOK[r.Intn(len(condOK))]).set("ClusterName", pickAdv()))
+			}
+			rules = append(rules, (&obj{}).set("Cond", "default_t()").set("ClusterName", pickAdv()))
 			adv.set(p, rules)
 		}
 	}
@@ -742,7 +750,11 @@ func genAll(r *vh.Rand) string {
 		v = genVip(r, append(append([]string(nil), prods...), "p9"))
 	}
 	ro := interface{}(genRoute(r, rp, rc))
-	cc := interface{}(genCC(r, cls))
+	ccCls := cls
+	if r.Chance(1, 8) { // a real cluster that happens to be called ADVANCED_MODE
+		ccCls = append(append([]string(nil), cls...), "ADVANCED_MODE")
+	}
+	cc := interface{}(genCC(r, ccCls))
 	if r.Chance(1, 5) {
 		switch r.Intn(4) {
 		case 0:
